@@ -274,12 +274,15 @@ async def episode_mqtt(loop: vloop.VirtualLoop, ctx, pid: str, trial: int) -> No
         await asyncio.sleep(0.3)
         n_unhandled = len(loop.unhandled)
 
-        async def call(n: int) -> None:
+        async def call(n: int, flood: bool = False) -> None:
             code = rng.choice(("30C9", "2309", "000A", "W2309"))
             idx = f"{n % 12:02X}"
             cmd = Command.from_attrs(" W", CTL, "2309", f"{idx}07D0") if code == "W2309" else Command.from_attrs("RQ", CTL, code, idx)
             wfr, timeout, retries = rng.choice((None, True, False)), rng.choice((0.5, 1.5, 3.5, 20, 25)), rng.choice((0, 1, 3))
-            await asyncio.sleep(rng.choice((0.0, 0.0, 0.01, 0.3, 2.0)))
+            if flood:
+                wfr, timeout, retries = False, 0.5, 0
+            else:
+                await asyncio.sleep(rng.choice((0.0, 0.0, 0.01, 0.3, 2.0)))
             rec: dict[str, Any] = {"n": n, "cmd": str(cmd), "wait_for_reply": wfr, "timeout": timeout, "max_retries": retries, "call_vt": loop.time()}
             history.append(rec)
             ctx.count("mqtt.calls")
@@ -293,7 +296,20 @@ async def episode_mqtt(loop: vloop.VirtualLoop, ctx, pid: str, trial: int) -> No
             rec["return_vt"] = loop.time()
 
         script.on = True
-        tasks = [asyncio.ensure_future(call(n)) for n in range(rng.choice((1, 2, 4, 8)))]
+        if trial % 6 == 5:
+            # a burst that spends the transport's whole transmit allowance (sends back to back, nothing lost on the
+            # air): once it is spent writes are dropped by design - but only until the allowance has built up again
+            script.on = False
+            meta["flood"] = n_flood = rng.choice((170, 200, 260))
+            ctx.count("mqtt.flood_episodes")
+
+            async def flood_caller() -> None:
+                for n in range(n_flood):
+                    await call(n, flood=True)
+
+            tasks = [asyncio.ensure_future(flood_caller())]
+        else:
+            tasks = [asyncio.ensure_future(call(n)) for n in range(rng.choice((1, 2, 4, 8)))]
         if rng.random() < 0.3:  # the stick drops off the broker and comes back
             t_off = rng.choice((0.05, 0.4, 1.5))
             loop.call_later(t_off, client.deliver, topic, b"offline")
@@ -322,7 +338,7 @@ async def episode_mqtt(loop: vloop.VirtualLoop, ctx, pid: str, trial: int) -> No
                     own_reply = q[-3] == p[-3] and q[-6] == CTL and q[-1][:2] == p[-1][:2] and rec["result"][:2] in ("RP", " I")
                     if not (own_echo or own_reply):
                         ctx.violate("C07|integration-mqtt|foreign-packet-returned", "on the MQTT transport a send returned a packet that is neither its echo nor its reply", {"call": rec, "episode": meta})
-            if pid == "C08":
+            if pid == "C08" and not meta.get("flood"):  # (a flood repeats its frames: publishes cannot be told apart)
                 mine = [vt for vt, fr in pubs if fr.split(" ")[-3:] == rec["cmd"].split(" ")[-3:] and fr[:2] == rec["cmd"][:2]]
                 limit = 1 + min(rec["max_retries"], 3)
                 ctx.count("mqtt.publishes", len(mine))
